@@ -6,7 +6,7 @@
 //!   lcp, search            LcpArray::new, SuffixArray::{search_range, search} on that array
 //!   EnhancedSuffixArray    with_lcp / with_bwt (default configuration)
 //!   SuffixArrayCompressor  compression::suffix_array (SA-IS + IntVec storage + own Kasai / binary search)
-//!   SuffixArrayDictionary  dict_zip matcher built on the same array (S-only)
+//!   SuffixArrayDictionary  dict_zip matcher built on the same array: sa_equal_range on every refinement step, sa_match_continuation, da_match_max_length
 //! Every small case is also evaluated in Coq: the verified checker check_sa must agree with the
 //! oracle's verdict, and the models of build / Kasai / BWT / search_range must reproduce the outputs.
 use crate::util::*;
@@ -15,46 +15,12 @@ use zipora::algorithms::suffix_array::{
     EnhancedSuffixArray, LcpArray, SuffixArray, SuffixArrayAlgorithm as Alg, SuffixArrayBuilder, SuffixArrayConfig,
 };
 use zipora::algorithms::Algorithm;
-use zipora::compression::dict_zip::{SuffixArrayDictionary, SuffixArrayDictionaryConfig};
+use zipora::compression::dict_zip::{DfaCacheConfig, SuffixArrayDictionary, SuffixArrayDictionaryConfig};
 use zipora::compression::suffix_array::{SuffixArrayCompressor, SuffixArrayConfig as CompConfig};
 
 const HEADER: &str = r#"From ZV.Common Require Import Base Run.
-From ZV.C12 Require Import Spec Model.
+From ZV.C12 Require Import Spec Model ModelDict ModelEsa ModelSais ModelCases.
 Open Scope nat_scope.
-Definition alg_of (k : N) : alg :=
-  match k with 0%N | 5%N => SAIS | 1%N => DivSufSort | 2%N => DC3 | 3%N => LarssonSadakane | _ => Adaptive end.
-Fixpoint eqb_lnat (a b : list nat) : bool :=
-  match a, b with
-  | [], [] => true
-  | x :: a', y :: b' => Nat.eqb x y && eqb_lnat a' b'
-  | _, _ => false
-  end.
-Definition pat_t : Type := list N * (nat * nat) * (nat * nat).
-(* (algorithm, adaptive_threshold, resolved algorithm), text, returned array, oracle verdict on the array,
-   full?, LCP array, BWT, patterns with (search_range, search) results.
-   full = false: a text too long for the quadratic list models; only the certificate check_sa is run. *)
-Definition case_t : Type :=
-  (N * N * N) * list N * list N * bool * bool * option (list nat) * option (list N) * list pat_t.
-Definition ok (c : case_t) : bool :=
-  let '(a, thr, res, t, sa_n, sa_ok, full, lcp, bw, pats) := c in
-  let sa := map N.to_nat sa_n in
-  Bool.eqb (check_sa t sa) sa_ok
-  && (negb full ||
-  eqb_lnat (build (fun _ => sa) (fun _ => alg_of res)
-                     {| algorithm := alg_of a; adaptive_threshold := thr |} t) sa
-  && match lcp with
-     | None => true
-     | Some l => match kasai t sa with Some m => eqb_lnat m l | None => false end
-     end
-  && match bw with None => true | Some b => eqb_ln (bwt t sa) b end
-  && forallb (fun q : pat_t =>
-       let '(p, (l, r), (l2, c2)) := q in
-       if N.eqb a 5 then (* compression::suffix_array: its own copy of the loops *)
-         let '(ml, mr) := w_find_pattern_range t sa p in Nat.eqb ml l && Nat.eqb mr r
-       else
-       let '(ml, mr) := search_range t sa p in
-       let '(ml2, mc2) := search t sa p in
-       Nat.eqb ml l && Nat.eqb mr r && Nat.eqb ml2 l2 && Nat.eqb mc2 c2) pats).
 "#;
 
 const ALGS: [(Alg, &str); 5] = [
@@ -73,6 +39,15 @@ struct Ctx {
     big_certs: usize,
     big_cert_budget: usize,
     comps: Vec<(SuffixArrayCompressor, &'static str, bool)>,
+    dict_coq: usize,
+    dict_coq_budget: usize,
+    core_coq: usize,
+    esa_coq: usize,
+    esa_coq_budget: usize,
+    sais_coq: usize,
+    sais_coq_budget: usize,
+    sais_seen: usize,
+    sais_stride: usize,
 }
 
 // ---------- the oracle: the property itself, naively ----------
@@ -135,6 +110,11 @@ fn coq_nat_list(xs: &[usize]) -> String {
     format!("[{}]%nat", v.join("; "))
 }
 
+fn coq_opt_list(xs: &[Option<usize>]) -> String {
+    let v: Vec<String> = xs.iter().map(|x| match x { Some(v) => format!("Some {}", v), None => "None".to_string() }).collect();
+    format!("[{}]%N", v.join("; "))
+}
+
 /// What one construction + its queries returned, for the Coq side.
 struct Obs {
     sa: Vec<usize>,
@@ -152,10 +132,11 @@ fn push_coq(cx: &mut Ctx, alg: usize, thr: usize, resolved: usize, t: &[u8], o: 
         let sais = resolved == 0 && (alg == 0 || alg == 4 || alg == 5);
         if !sais || t.len() > 2600 || cx.big_certs >= cx.big_cert_budget { return; }
         cx.big_certs += 1;
-    } else if !force && cx.shards.len() >= cx.coq_budget + cx.big_certs { return; }
+    } else if !force && cx.core_coq >= cx.coq_budget { return; }
+    if full { cx.core_coq += 1; }
     let pats: Vec<String> = if full { o.pats.iter().map(|(p, (l, r), (l2, c))|
         format!("({}, ({}, {}), ({}, {}))", coq_bytes(p), l, r, l2, c)).collect() } else { vec![] };
-    let term = format!("(({}%N, {}%N, {}%N), {}, {}, {}, {}, {}, {}, [{}])",
+    let term = format!("Core (({}%N, {}%N, {}%N), {}, {}, {}, {}, {}, {}, [{}])",
         alg, thr, resolved, coq_bytes(t), coq_n_list(o.sa.iter().map(|&x| x as u128)), coq_bool(o.sa_ok), coq_bool(full),
         coq_opt(if full { o.lcp.as_ref().map(|l| coq_nat_list(l)) } else { None }),
         coq_opt(if full { o.bwt.as_ref().map(|b| coq_bytes(b)) } else { None }),
@@ -200,12 +181,25 @@ fn core_case(cx: &mut Ctx, alg_i: usize, variant: u64, t: &[u8], pats: &[Vec<u8>
     };
     if alg == Alg::Adaptive { cx.sum.dist(&format!("adaptive_resolves_to_{}", ALGS[alg_index(resolved)].1)); }
     // three entry points for the same construction
+    #[cfg(zipora_verif)]
+    if resolved == Alg::SAIS { zipora::algorithms::suffix_array::verif_trace::start(); }
     let built = guarded(|| match (variant, alg) {
         (0, Alg::Adaptive) => SuffixArray::new(t),
         (0, Alg::DivSufSort) | (1, Alg::SAIS) => { let b = SuffixArrayBuilder::new(cfg.clone()); b.execute(&cfg, t.to_vec()) }
         (0, Alg::LarssonSadakane) | (1, Alg::DC3) => SuffixArrayBuilder::new(cfg.clone()).build(t),
         _ => SuffixArray::with_config(t, &cfg),
     });
+    #[cfg(zipora_verif)]
+    let trace: Option<String> = if resolved == Alg::SAIS {
+        let lv = zipora::algorithms::suffix_array::verif_trace::take();
+        let n_list = |v: &[usize]| coq_n_list(v.iter().map(|&x| x as u128));
+        Some(format!("[{}]", lv.iter().map(|l| format!("[{}; {}; {}; {}; {}]",
+            n_list(&[l.depth, l.n, l.alphabet_size, l.num_names, l.recursed as usize]),
+            n_list(&l.suffix_types.iter().map(|&b| b as usize).collect::<Vec<_>>()),
+            n_list(&l.lms_suffixes), n_list(&l.first_pass), n_list(&l.lms_names))).collect::<Vec<_>>().join("; ")))
+    } else { None };
+    #[cfg(not(zipora_verif))]
+    let trace: Option<String> = None;
     let class = sais_class(resolved);
     let sa_obj = match built {
         Err(m) => { cx.sum.fail(&cell, class, cj, &format!("construction panicked: {}", m)); return; }
@@ -255,6 +249,14 @@ fn core_case(cx: &mut Ctx, alg_i: usize, variant: u64, t: &[u8], pats: &[Vec<u8>
             }
         }
     }
+    // SA-IS: the Gallina model of the algorithm must return the same array
+    if resolved == Alg::SAIS && n >= 2 && n <= 300 { cx.sais_seen += 1; }
+    if resolved == Alg::SAIS && n >= 2 && n <= 300 && (force_coq || (cx.sais_seen % cx.sais_stride == 0 && cx.sais_coq < cx.sais_coq_budget)) {
+        cx.sais_coq += 1;
+        let term = format!("Sais {} {} {} {}", coq_bool(cfg.optimize_small_alphabet), coq_bytes(t), coq_n_list(sa.iter().map(|&x| x as u128)),
+            trace.clone().unwrap_or_else(|| "[]".to_string()));
+        cx.shards.push(term, cj.clone());
+    }
     push_coq(cx, alg_i, cfg.adaptive_threshold, alg_index(resolved), t, &obs, &cj, force_coq);
 }
 
@@ -266,6 +268,9 @@ fn enhanced_case(cx: &mut Ctx, t: &[u8], force_coq: bool) {
     let thr = SuffixArrayConfig::default().adaptive_threshold;
     let resolved = SuffixArrayBuilder::new(SuffixArrayConfig::default()).select_algorithm(t);
     let class = sais_class(resolved);
+    let mut esa_sa: [Option<Vec<usize>>; 2] = [None, None];
+    let mut esa_probes: Option<Vec<Option<usize>>> = None;
+    let mut esa_bw: Option<Vec<u8>> = None;
     for which in 0..2 {
         let r = guarded(|| if which == 0 { EnhancedSuffixArray::with_lcp(t) } else { EnhancedSuffixArray::with_bwt(t) });
         let e = match r {
@@ -283,18 +288,39 @@ fn enhanced_case(cx: &mut Ctx, t: &[u8], force_coq: bool) {
                 Some(l) => {
                     if verdict.is_ok() { if let Err(why) = check_lcp(t, &sa, l.as_slice()) { cx.sum.fail(cell, None, cj.clone(), &why); } }
                     obs.lcp = Some(l.as_slice().to_vec());
+                    // the accessor, one past the end included
+                    let probes: Vec<Option<usize>> = (0..=sa.len()).map(|k| l.lcp_at(k)).collect();
+                    if verdict.is_ok() {
+                        for k in 0..=sa.len() {
+                            let want = if k == sa.len() { None } else if k == 0 { Some(0) } else {
+                                Some(t[sa[k - 1]..].iter().zip(t[sa[k]..].iter()).take_while(|(x, y)| x == y).count()) };
+                            if probes[k] != want { cx.sum.fail(cell, None, cj.clone(), &format!("lcp_at({}) = {:?}, the common prefix of the suffixes at ranks {} and {} has length {:?}", k, probes[k], k.wrapping_sub(1), k, want)); break; }
+                        }
+                    }
+                    esa_probes = Some(probes);
                 }
             }
+            if e.bwt().is_some() { cx.sum.fail(cell, None, cj.clone(), "with_lcp carries a BWT"); }
         } else {
             match e.bwt() {
                 None => cx.sum.fail(cell, None, cj.clone(), "with_bwt has no BWT"),
                 Some(b) => {
                     if verdict.is_ok() && b != &bwt_naive(t, &sa)[..] { cx.sum.fail(cell, None, cj.clone(), &format!("BWT {:?} is not the bytes preceding the sorted suffixes", &b[..b.len().min(16)])); }
                     obs.bwt = Some(b.to_vec());
+                    esa_bw = Some(b.to_vec());
                 }
             }
         }
+        esa_sa[which] = Some(sa.clone());
         push_coq(cx, 4, thr, alg_index(resolved), t, &obs, &cj, force_coq);
+    }
+    if let (Some(s1), Some(s2), Some(pr), Some(bw)) = (&esa_sa[0], &esa_sa[1], &esa_probes, &esa_bw) {
+        if n <= 200 && (force_coq || cx.esa_coq < cx.esa_coq_budget) {
+            cx.esa_coq += 1;
+            let term = format!("EsaAlg {}%N {} {} {} {} {}", alg_index(resolved), coq_bytes(t), coq_n_list(s1.iter().map(|&x| x as u128)),
+                coq_opt_list(pr), coq_n_list(s2.iter().map(|&x| x as u128)), coq_bytes(bw));
+            cx.shards.push(term, cj.clone());
+        }
     }
 }
 
@@ -361,19 +387,30 @@ fn compress_case(cx: &mut Ctx, preset: usize, t: &[u8], pats: &[Vec<u8>], force_
             }
         }
     }
+    if n <= 200 && probes.len() == len && (force_coq || cx.esa_coq < cx.esa_coq_budget) {
+        cx.esa_coq += 1;
+        let mut lp: Vec<Option<usize>> = lcp_o.iter().map(|(_, l)| *l).collect(); lp.push(lcp_end);
+        let term = format!("EsaComp {} {} {} {} {} {}%N {}%N {}", coq_bool(with_lcp), coq_bytes(t), coq_n_list(sa.iter().map(|&x| x as u128)),
+            coq_opt_list(&sa_o), coq_opt_list(&lp), tl, len, coq_bool(empty));
+        cx.shards.push(term, cj.clone());
+    }
     push_coq(cx, 5, 10_000, 0, t, &obs, &cj, force_coq);
 }
 
 /// The PA-Zip dictionary's matcher: the rank range it reports for the longest prefix of `q` that
-/// occurs in the dictionary text must be the range of the suffix array of that text.
-fn dict_case(cx: &mut Ctx, variant: u64, t: &[u8], queries: &[Vec<u8>]) {
+/// occurs in the dictionary text must be the range of the suffix array of that text; and every
+/// refinement step `sa_equal_range(lo, hi, depth, c)` on a range whose suffixes share their first
+/// `depth` bytes must return exactly the ranks of the range with byte `c` at that depth.
+/// All calls are derived from (text, queries) alone, so a replay repeats them.
+fn dict_case(cx: &mut Ctx, variant: u64, t: &[u8], queries: &[Vec<u8>], to_coq: bool) {
     let n = t.len();
     let cj = json!({"cell": "dict", "variant": variant, "text": t, "patterns": queries});
     let mut cfg = SuffixArrayDictionaryConfig { use_memory_pool: false, ..SuffixArrayDictionaryConfig::default() };
     if variant == 1 { cfg.min_frequency = 1; cfg.max_bfs_depth = 2; }
     if variant == 2 { cfg.suffix_array_config.algorithm = Alg::SAIS; cfg.min_frequency = 2; }
+    if variant == 3 { cfg.dfa_cache_config = DfaCacheConfig::small_dictionary(n); cfg.min_frequency = 1; } // double-array trie
     let cells = ["SuffixArrayDictionary/sa_match_continuation", "SuffixArrayDictionary/da_match_max_length"];
-    for c in cells { cx.sum.cell_status(c, "S-only"); }
+    let rcell = "SuffixArrayDictionary/sa_equal_range";
     let d = match guarded(|| SuffixArrayDictionary::new(t, cfg.clone())) {
         Err(m) => { cx.sum.fail(cells[0], None, cj, &format!("SuffixArrayDictionary::new panicked: {}", m)); return; }
         Ok(Err(_)) => { cx.sum.dist("dict_build_refused"); return; }
@@ -383,6 +420,10 @@ fn dict_case(cx: &mut Ctx, variant: u64, t: &[u8], queries: &[Vec<u8>]) {
     cx.sum.dist_max("dict_max_cache_states", d.cache_states() as u64);
     let mut sa: Vec<usize> = (0..n).collect();
     sa.sort_by(|&a, &b| t[a..].cmp(&t[b..]));
+    let mut conts: Vec<String> = vec![];
+    let mut das: Vec<String> = vec![];
+    let mut ranges: Vec<String> = vec![];
+    let mut seen_calls: std::collections::HashSet<(usize, usize, usize, u8)> = std::collections::HashSet::new();
     for q in queries {
         // the longest prefix of q that occurs in t, and its rank range
         let mut depth = 0;
@@ -401,9 +442,57 @@ fn dict_case(cx: &mut Ctx, variant: u64, t: &[u8], queries: &[Vec<u8>]) {
                     else if ms.lo > ms.hi || ms.hi > n { why = format!("range ({}, {}) is not a rank range", ms.lo, ms.hi); }
                     else { let mut got = sa[ms.lo..ms.hi].to_vec(); got.sort(); if got != occ { why = format!("ranks [{}, {}) list {:?}, the matched prefix occurs at {:?}", ms.lo, ms.hi, &got[..got.len().min(10)], &occ[..occ.len().min(10)]); } }
                     if !why.is_empty() { cx.sum.fail(cell, None, cj.clone(), &format!("query {:?}: {}", &q[..q.len().min(16)], why)); }
+                    if ci == 0 { conts.push(format!("([0; {}; 0; {}; {}; {}]%N, {})", n, ms.lo, ms.hi, ms.depth, coq_bytes(q))); }
+                    else { das.push(format!("([{}; {}; {}]%N, {})", ms.lo, ms.hi, ms.depth, coq_bytes(q))); }
                 }
             }
         }
+        // ---- the refinement steps along q: [lo, hi) = ranks whose suffixes start with q[..pos] ----
+        let (mut lo, mut hi) = (0usize, n);
+        for pos in 0..q.len().min(depth + 1) {
+            if lo >= hi { break; }
+            let next = q[pos];
+            let others = [next, next.wrapping_add(1), next.wrapping_sub(1), 0u8, 255u8, t[sa[hi - 1]..].get(pos).copied().unwrap_or(7), t[sa[lo]..].get(pos).copied().unwrap_or(9)];
+            // the full range and sub-ranges of it (they still share the prefix)
+            let subs = [(lo, hi), (lo + 1, hi), (lo, hi - 1), (lo + (hi - lo) / 2, hi), (lo, if hi == n { hi + 3 } else { hi })];
+            for (si, &(a, b)) in subs.iter().enumerate() {
+                for (oi, &c) in others.iter().enumerate() {
+                    if si > 0 && oi > 2 && oi < 5 { continue; }
+                    if !seen_calls.insert((a, b, pos, c)) { continue; }
+                    cx.sum.eval(rcell, &format!("{:?} {} {} {} {}", t, a, b, pos, c), b > a + 3);
+                    match guarded(|| d.sa_equal_range(a, b, pos, c)) {
+                        Err(m) => cx.sum.fail(rcell, None, cj.clone(), &format!("sa_equal_range({}, {}, {}, {}) panicked: {}", a, b, pos, c, m)),
+                        Ok((l, r)) => {
+                            let want: Vec<usize> = (a..b.min(n)).filter(|&k| sa[k] + pos < n && t[sa[k] + pos] == c).collect();
+                            let good = if want.is_empty() { l >= r } else { l == want[0] && r == want[want.len() - 1] + 1 && r - l == want.len() };
+                            if !good { cx.sum.fail(rcell, None, cj.clone(), &format!("sa_equal_range({}, {}, depth {}, byte {}) = ({}, {}), the ranks of that range with that byte at that depth are {:?}", a, b, pos, c, l, r, &want[..want.len().min(12)])); }
+                            if want.len() == 1 && want[0] + 1 == b.min(n) && b.min(n) - a > 3 { cx.sum.dist("equal_range_only_hit_is_last_rank_binary_path"); }
+                            if ranges.len() < 60 { ranges.push(format!("[{}; {}; {}; {}; {}; {}]%N", a, b, pos, c, l, r)); }
+                        }
+                    }
+                }
+            }
+            // calls outside the documented use (empty / reversed / out-of-range arguments): model comparison only
+            for &(a, b, p2) in &[(hi, lo, pos), (n, n + 1, pos), (lo, hi, pos + n + 1), (n.saturating_sub(1), n + 2, 0), (lo, hi + 3, pos), (lo.saturating_sub(1), hi, pos)] {
+                if !seen_calls.insert((a, b, p2, next)) { continue; }
+                if let Ok((l, r)) = guarded(|| d.sa_equal_range(a, b, p2, next)) {
+                    if ranges.len() < 70 { ranges.push(format!("[{}; {}; {}; {}; {}; {}]%N", a, b, p2, next, l, r)); }
+                }
+            }
+            // continuation from the middle of the walk
+            if let Ok(ms) = guarded(|| d.sa_match_continuation(lo, hi, pos, q)) {
+                if ms.depth != depth && pos <= depth { cx.sum.fail(cells[0], None, cj.clone(), &format!("sa_match_continuation({}, {}, {}, {:?}) stops at depth {}, the longest occurring prefix has length {}", lo, hi, pos, &q[..q.len().min(16)], ms.depth, depth)); }
+                if conts.len() < 30 { conts.push(format!("([{}; {}; {}; {}; {}; {}]%N, {})", lo, hi, pos, ms.lo, ms.hi, ms.depth, coq_bytes(q))); }
+            }
+            let want: Vec<usize> = (lo..hi).filter(|&k| sa[k] + pos < n && t[sa[k] + pos] == next).collect();
+            if want.is_empty() { break; }
+            lo = want[0]; hi = want[want.len() - 1] + 1;
+        }
+    }
+    if to_coq && n <= 120 && cx.dict_coq < cx.dict_coq_budget {
+        cx.dict_coq += 1;
+        let term = format!("Dict {} {} [{}] [{}] [{}]", coq_bytes(t), coq_n_list(sa.iter().map(|&x| x as u128)), ranges.join("; "), conts.join("; "), das.join("; "));
+        cx.shards.push(term, cj);
     }
 }
 
@@ -500,7 +589,7 @@ fn run_one(cx: &mut Ctx, c: &Value) {
         }
         Some("enhanced") => enhanced_case(cx, &t, true),
         Some("compress") => compress_case(cx, c["preset"].as_u64().unwrap_or(0) as usize, &t, &pats, true),
-        Some("dict") => dict_case(cx, c["variant"].as_u64().unwrap_or(0), &t, &pats),
+        Some("dict") => dict_case(cx, c["variant"].as_u64().unwrap_or(0), &t, &pats, true),
         _ => {}
     }
 }
@@ -519,8 +608,18 @@ pub fn run(args: &Args) {
         big_certs: 0,
         big_cert_budget: if args.thorough { 200 } else { 40 },
         comps,
+        dict_coq: 0,
+        core_coq: 0,
+        esa_coq: 0,
+        sais_coq: 0,
+        sais_coq_budget: if args.thorough { 1500 } else { 110 },
+        sais_seen: 0,
+        sais_stride: 1,
+        esa_coq_budget: if args.thorough { 400 } else { 50 },
+        dict_coq_budget: if args.thorough { 900 } else { 120 },
     };
-    for (cell, st) in [("build/SAIS", "S-only"), ("EnhancedSuffixArray", "M+S"), ("lcp", "M+S"), ("search", "M+S")] { cx.sum.cell_status(cell, st); }
+    for (cell, st) in [("build/SAIS", "M+S"), ("EnhancedSuffixArray", "M+S"), ("lcp", "M+S"), ("search", "M+S"),
+        ("SuffixArrayDictionary/sa_equal_range", "M+S"), ("SuffixArrayDictionary/sa_match_continuation", "M+S"), ("SuffixArrayDictionary/da_match_max_length", "M+S")] { cx.sum.cell_status(cell, st); }
     let mut rng = Rng::new(args.seed);
     if let Some(f) = &args.replay {
         if std::env::var("ZV_C12_TRACE").is_ok() { std::panic::set_hook(Box::new(|info| eprintln!("panic: {}", info))); }
@@ -550,6 +649,7 @@ pub fn run(args: &Args) {
         for s in all_strings(&alpha, maxl) { universe.push((s, pats.clone())); }
     }
     cx.sum.dist_max("enumerated_texts", universe.len() as u64);
+    cx.sais_stride = (universe.len() / (cx.sais_coq_budget / 2)).max(1);
     let stride = (universe.len() * 5 / (cx.coq_budget * 2 / 3)).max(1);
     let mut k = 0usize;
     for (t, pats) in &universe {
@@ -565,7 +665,17 @@ pub fn run(args: &Args) {
             cx.coq_budget = before;
         }
     }
+    // ---- the dictionary matcher on the enumerated universe (every refinement step along every small pattern) ----
+    {
+        let dstride = (universe.len() / (cx.dict_coq_budget * 2 / 3)).max(1);
+        for (ui, (t, pats)) in universe.iter().enumerate() {
+            if t.is_empty() { continue; }
+            let qs: Vec<Vec<u8>> = pats.iter().filter(|p| p.len() == 3 || (ui % 7 == 0 && !p.is_empty())).cloned().collect();
+            dict_case(&mut cx, (ui % 4) as u64, t, &qs, ui % dstride == 0);
+        }
+    }
     // ---- generated ----
+    cx.sais_stride = if args.thorough { 17 } else { 23 };
     let ng = if args.thorough { 50000 } else { 2400 };
     for i in 0..ng {
         let (t, kind) = gen_text(&mut rng, if i % 16 == 0 { 2000 } else { 260 });
@@ -579,7 +689,7 @@ pub fn run(args: &Args) {
         if i % 3 == 0 { core_case(&mut cx, 0, rng.below(2) * 3, &t, &pats[..pats.len().min(4)], false); }
         if i % 4 == 0 { enhanced_case(&mut cx, &t, false); }
         if i % 4 == 1 { compress_case(&mut cx, (i / 4 % 4) as usize, &t, &pats, false); }
-        if i % 4 == 2 && !t.is_empty() && t.len() <= 400 { dict_case(&mut cx, (i / 4 % 3) as u64, &t, &pats); }
+        if i % 4 == 2 && !t.is_empty() && t.len() <= 400 { dict_case(&mut cx, (i / 4 % 4) as u64, &t, &pats, i % 8 == 2); }
     }
     // ---- a few texts at and above the default adaptive threshold (10 000) ----
     let nbig = if args.thorough { 12 } else { 3 };
